@@ -44,17 +44,22 @@ RULE = ("one operation (add_bracket result, bracket_indices, marginal_rates, rat
         "object (operation, then add_bracket / multiply_thresholds / multiply_rates in place / scale_tax_scales, "
         "then operations again: every definition must hold after every step on the brackets the object then "
         "reports, and the model is run on those brackets), and a few scales of 129..300 brackets with bases "
-        "around the 128th / 256th threshold and above all thresholds")
+        "around the 128th / 256th threshold and above all thresholds; plus a scale / special-values stream: "
+        "base vectors of 65536..200000 elements (a short pattern repeated; whole result compared with the "
+        "pattern alone, ~45 sampled positions incl. first/last/around 65536 and 131072 with the base alone and "
+        "the definition), and scales/bases at 2^24, 2^24+1, 2^31, 1e9+0.5, 1000000.01, 2^40, 1e15, 2^-20, 1e-9")
 TRUSTED = ["numpy (tile/outer/minimum/maximum/dot/digitize/round) is modelled by list functions in coq/model/Scale.v, covered by the correspondence only",
            "the float addition factor + numpy.finfo(float).eps is evaluated by the harness with numpy and handed to the model as its eps (2^-52 for factor in [1,2), 0 when absorbed)",
            "harness/scalelib.py decides from the inputs (Fraction arithmetic) whether a real-valued result is compared exactly, on a 10^-6 grid, or only by the oracle"]
 ASSUMPTIONS = ["binary64 rounding is not modelled: amounts equal the model's rational exactly only when every intermediate is representable (checked per base), otherwise they are compared on a 10^-6 grid with the model and within 1e-9 relative with the definition",
                "a base equal to a positive threshold is in the lower bracket (eps shift, factor 1); on a scaled positive threshold (factor != 1) either neighbour is accepted; bases below the first threshold and linear-average bases beyond the last threshold are modelled and compared but not claimed",
-               "factor >= 0; inputs |x| < 2^16 multiples of 1/8 (exactly representable in float32/float64); rounding options are compared with the model, no statement is claimed for them"]
+               "the wide (> 65536 bases) cases and the special-value cases of the rate scales are checked by the oracle only (the model receives an empty sequence); special-value cases of the amount scales are ordinary cases",
+               "factor >= 0; ordinary inputs |x| < 2^16 multiples of 1/8 (exactly representable in float32/float64); rounding options are compared with the model, no statement is claimed for them"]
 
 KINDS = {"mr": taxscales.MarginalRateTaxScale, "ma": taxscales.MarginalAmountTaxScale,
          "sa": taxscales.SingleAmountTaxScale, "la": taxscales.LinearAverageRateTaxScale}
 DTYPES = {"f8": numpy.float64, "f4": numpy.float32, "i8": numpy.int64}
+EXACT_OPS = ("indices", "mrates", "rate_from", "thr_from", "calc_ma", "calc_sa")
 
 
 # ---- implementation driver ---------------------------------------------------------------
@@ -66,25 +71,33 @@ def mk_scale(c):
     return s
 
 
-def call(c, s, arr):
+def raw(c, s, arr):
+    """The operation's numpy result."""
     op = c["op"]
     factor = float(fr(c.get("factor", "1")))
     rd = c.get("round")
     if op == "indices":
-        return [int(i) for i in s.bracket_indices(arr, factor, rd)]
+        return s.bracket_indices(arr, factor, rd)
     if op == "mrates":
-        return [L.tofr(x) for x in s.marginal_rates(arr, factor, rd)]
+        return s.marginal_rates(arr, factor, rd)
     if op == "rate_from":
-        return [L.tofr(x) for x in s.rate_from_tax_base(arr)]
+        return s.rate_from_tax_base(arr)
     if op == "thr_from":
-        return [L.tofr(x) for x in s.threshold_from_tax_base(arr)]
+        return s.threshold_from_tax_base(arr)
     if op == "calc_mr":
-        return [L.tofr(x) for x in s.calc(arr, factor, rd)]
+        return s.calc(arr, factor, rd)
     if op in ("calc_ma", "calc_la"):
-        return [L.tofr(x) for x in s.calc(arr)]
+        return s.calc(arr)
     if op == "calc_sa":
-        return [L.tofr(x) for x in s.calc(arr, right=c["right"])]
+        return s.calc(arr, right=c["right"])
     raise ValueError(op)
+
+
+def call(c, s, arr):
+    out = raw(c, s, arr)
+    if c["op"] == "indices":
+        return [int(i) for i in out]
+    return [L.tofr(x) for x in out]
 
 
 def state_of(c, s):
@@ -133,9 +146,47 @@ def run_seq(c):
     return out
 
 
+def wide_bases(c):
+    """The base vector of a wide case: the pattern repeated up to n elements."""
+    inner = c["inner"]
+    pat = numpy.array([float(fr(b)) for b in inner["bases"]]).astype(DTYPES[inner["dtype"]])
+    return pat, numpy.resize(pat, c["n"])
+
+
+def run_wide(c):
+    """One operation on a vector of n > 65536 bases (a short pattern repeated): the whole
+    result is compared with the result for the pattern alone, sampled positions with the
+    operation on that base alone."""
+    inner = c["inner"]
+    s = mk_scale(inner)
+    pat, arr = wide_bases(c)
+    full = numpy.asarray(raw(inner, s, arr))
+    small = numpy.asarray(raw(inner, s, pat))
+    first_diff = None
+    if full.shape == arr.shape:
+        tiled = numpy.resize(small, c["n"])
+        if inner["op"] in EXACT_OPS:
+            bad = full != tiled
+        else:
+            bad = ~numpy.isclose(full, tiled, rtol=1e-9, atol=1e-9)
+        if bad.any():
+            k = int(numpy.argmax(bad))
+            first_diff = [k, L.tofr(full[k]), L.tofr(tiled[k])]
+    pos = [p for p in c["sample"] if p < min(len(full), c["n"])]
+    conv = (lambda x: int(x)) if inner["op"] == "indices" else L.tofr
+    return {"n_out": int(full.shape[0]) if full.ndim else -1, "first_diff": first_diff, "pos": pos,
+            "vec": [conv(full[p]) for p in pos],
+            "single": [call(inner, s, arr[p:p + 1])[0] for p in pos],
+            "after": state_of(inner, s)}
+
+
 def run_impl(c):
     if c["op"] == "seq":
         return run_seq(c)
+    if c["op"] == "wide":
+        return run_wide(c)
+    if c["op"] == "oo":
+        return observe(c["inner"], mk_scale(c["inner"]))
     s = mk_scale(c)
     if c["op"] == "build":
         return state_of(c, s)
@@ -161,6 +212,8 @@ def apply_step(calls, st):
 
 def coq_case(c):
     op = c["op"]
+    if op in ("wide", "oo"):
+        return "(KSeq [])"               # oracle only: nothing for the model to reproduce
     calls = L.ccalls(c["calls"])
     if op == "build":
         return f"(KBuild {calls})"
@@ -194,6 +247,8 @@ def obs_for_coq(c, o):
         return o
     if c["op"] == "build":
         return [o["thresholds"], o["values"]]
+    if c["op"] in ("wide", "oo"):
+        return []
     if c["op"] == "seq":
         return [obs_for_coq(st["case"], ok) for st, ok in zip(c["steps"], o) if st["do"] == "obs"]
     if c["op"] in ("calc_mr", "calc_la"):
@@ -243,10 +298,31 @@ def oracle_seq(c, o):
     return None
 
 
+def oracle_wide(c, o):
+    inner = c["inner"]
+    n, P = c["n"], len(inner["bases"])
+    if isinstance(o, Err):
+        return f"vector: {inner['op']} on {n} bases raised {o.kind} ({o.msg[:80]}) on {inner['calls']}"
+    if o["n_out"] != n:
+        return f"vector: {inner['op']} returned {o['n_out']} values for {n} bases ({inner['calls']})"
+    if o["first_diff"] is not None:
+        k, v, w = o["first_diff"]
+        return (f"vector: {inner['op']} gives {float(v)!r} at position {k} (base {inner['bases'][k % P]}) of a vector of "
+                f"{n} bases (pattern {inner['bases']} repeated) and {float(w)!r} for the same base in the pattern alone "
+                f"({inner['calls']})")
+    sub = dict(inner, bases=[inner["bases"][p % P] for p in o["pos"]])
+    m = oracle(sub, o)
+    return f"{m} [positions {o['pos']} of {n} bases, pattern {inner['bases']} repeated]" if m else None
+
+
 def oracle(c, o):
     op = c["op"]
     if op == "seq":
         return oracle_seq(c, o)
+    if op == "wide":
+        return oracle_wide(c, o)
+    if op == "oo":
+        return oracle(c["inner"], o)
     br = L.ref_build(c["calls"])
     if isinstance(o, Err):
         if op == "build" or (br and c["bases"]):
@@ -267,7 +343,7 @@ def oracle(c, o):
     bases = [fr(b) for b in c["bases"]]
     factor = fr(c.get("factor", "1"))
     rd = c.get("round")
-    exact_ops = op in ("indices", "mrates", "rate_from", "thr_from", "calc_ma", "calc_sa")
+    exact_ops = op in EXACT_OPS
     # a vector of bases gives the same values as each base alone
     for k, (v, s1) in enumerate(zip(o["vec"], o["single"])):
         same = (v == s1) if exact_ops else L.close(F(v), F(s1))
@@ -315,12 +391,17 @@ def nontrivial(c, o):
         return False
     if c["op"] == "build":
         return len(c["calls"]) >= 1
+    if c["op"] in ("wide", "oo"):
+        return len(c["inner"]["calls"]) >= 1 and len(c["inner"]["bases"]) >= 1
     if c["op"] == "seq":
         return sum(1 for st in c["steps"] if st["do"] == "obs" and st["case"]["bases"]) >= 2
     return len(c["calls"]) >= 1 and len(c["bases"]) >= 1
 
 
 def classify(c, o):
+    if c["op"] in ("wide", "oo"):
+        tag = f"{c['op']}:{c['inner']['op']}:{c['kind']}" + (f":n={c['n']}" if c["op"] == "wide" else "")
+        return tag + (":" + o.kind if isinstance(o, Err) else "")
     if c["op"] == "seq":
         tag = f"seq:{c['kind']}:" + ",".join(st["do"] if st["do"] != "obs" else st["case"]["op"] for st in c["steps"])
         return tag + (":" + o.kind if isinstance(o, Err) else "")
@@ -564,6 +645,72 @@ def gen_large(rng):
     return out
 
 
+def gen_wide(rng, kind):
+    """An ordinary operation whose base vector is a short pattern repeated to 65536..200000
+    elements (oracle only)."""
+    while True:
+        ths = gen_thresholds(rng, rng.choice([1, 2, 3, 4, 6]), rng.choice(["dyadic", "pow2", "ints"]))
+        calls = gen_calls(rng, ths, kind)
+        subs = [x for x in scale_cases(rng, kind, calls, rng.random() < 0.4) if x["op"] != "build" and len(x["bases"]) >= 3]
+        if kind == "mr" and rng.random() < 0.6:
+            subs = [x for x in subs if x["op"] == "calc_mr"]
+        if subs:
+            break
+    inner = rng.choice(subs)
+    inner.pop("modes", None)
+    n = rng.choice([65537, 65536, 65536 + 4097, 70000, 100000, 131072, 131073, 200000, rng.randrange(65537, 200001)])
+    marks = [0, 1, 2, 4095, 4096, 32767, 32768, 65535, 65536, 65537, 65536 + 4096, 99999, 131071, 131072, 131073,
+             n - 3, n - 2, n - 1]
+    sample = sorted({p for p in marks if 0 <= p < n} | {rng.randrange(n) for _ in range(20)}
+                    | {rng.randrange(max(0, n - 70000), n) for _ in range(10)})
+    return {"op": "wide", "kind": kind, "n": n, "sample": sample, "inner": inner}
+
+
+def fl(x):
+    """exact value of the binary64 number nearest to x"""
+    return F(float(x))
+
+
+SPECIAL = [   # (threshold, bases around it): pairs that float32 cannot separate, very large, very small
+    (fl(2**24), [fl(2**24), fl(2**24 + 1), fl(2**24 - 1), fl(2**24 + 2)]),
+    (fl(2**31), [fl(2**31 + 1), fl(2**31 - 1), fl(2**31), fl(2**32 + 5)]),
+    (fl(10**9), [fl(10**9 + 0.5), fl(10**9 - 0.5), fl(10**9)]),
+    (fl(1000000), [fl(1000000.01), fl(999999.99), fl(1000000)]),
+    (fl(2**40), [fl(2**40 + 1), fl(2**40 - 1), fl(2**40)]),
+    (fl(10**15), [fl(10**15 + 1), fl(10**15 - 1), fl(2 * 10**15)]),
+    (F(1, 2**20), [F(1, 2**20), F(1, 2**20) + F(1, 2**40), F(1, 2**21), F(1, 2**30)]),
+    (fl(1e-9), [fl(2e-9), fl(1e-9), fl(5e-10)]),
+    (fl(33554432.5), [fl(33554433), fl(33554432.5), fl(33554432)]),
+]
+
+
+def gen_special(rng, kind):
+    """Scales and bases with special numeric values.  Amount scales compare thresholds and
+    bases only (exact in binary64): ordinary cases, run by the model too; rate scales:
+    oracle only."""
+    groups = rng.sample(SPECIAL, rng.choice([1, 2, 2, 3]))
+    ths = sorted({g[0] for g in groups} | ({F(0)} if rng.random() < 0.5 else set())
+                 | ({-g[0] for g in groups[:1]} if rng.random() < 0.2 else set()))
+    pool = AMOUNTS[1:40] if kind in ("ma", "sa") else RATES[1:]
+    br = [(t, rng.choice(pool)) for t in ths]
+    rng.shuffle(br)
+    calls = [[enc(t), enc(v)] for t, v in br]
+    bases = [b for g in groups for b in g[1]] + [F(0), ths[0] - 1, ths[-1] * 2 + 1, rng.choice(ths)]
+    bases = list(dict.fromkeys(bases))
+    rng.shuffle(bases)
+    ints = all(t.denominator == 1 for t in ths) and rng.random() < 0.5
+    dtype = "i8" if all(b.denominator == 1 for b in bases) and rng.random() < 0.4 else "f8"
+    c = {"kind": kind, "calls": calls, "ints": ints, "bases": [enc(b) for b in bases], "dtype": dtype,
+         "factor": "1", "eps": enc(L.eff_eps(F(1))), "round": None}
+    if kind == "ma":
+        return dict(c, op="calc_ma")
+    if kind == "sa":
+        return dict(c, op="calc_sa", right=rng.random() < 0.5)
+    op = rng.choice(["calc_mr", "calc_mr", "indices", "mrates", "thr_from"] if kind == "mr" else
+                    ["calc_la", "calc_la", "indices", "thr_from"])
+    return {"op": "oo", "kind": kind, "inner": dict(c, op=op)}
+
+
 def generate(rng, tier):
     n_scales = {"quick": 3200, "escalated": 12000, "thorough": 60000}[tier]
     n_perm = {"quick": (6, 12, 20, 20), "escalated": (20, 40, 60, 40), "thorough": (80, 150, 200, 100)}[tier]
@@ -593,6 +740,13 @@ def generate(rng, tier):
         cases.append(gen_seq(rng))
     for _ in range({"quick": 8, "escalated": 20, "thorough": 60}[tier]):
         cases += gen_large(rng)
+    # scale / special values: long base vectors, values float32 cannot separate, extreme magnitudes
+    reps = {"quick": 1, "escalated": 3, "thorough": 10}[tier]
+    for _ in range(reps):
+        for kind in ("mr", "mr", "mr", "la", "ma", "sa"):
+            cases.append(gen_wide(rng, kind))
+        for kind in ("mr", "mr", "la", "ma", "ma", "ma", "sa", "sa") * 3:
+            cases.append(gen_special(rng, kind))
     # malformed stream: empty scale, empty base vector
     for kind in KINDS:
         for op in {"mr": ["calc_mr", "indices", "mrates", "rate_from", "thr_from"], "ma": ["calc_ma"],
@@ -609,7 +763,7 @@ def generate(rng, tier):
 
 
 def neighbours(c, rng):
-    if c["op"] == "seq":
+    if c["op"] in ("seq", "wide", "oo"):
         return []
     out = []
     for _ in range(40):
@@ -629,7 +783,7 @@ def neighbours(c, rng):
 
 def shrink(c, still_fails):
     """Drop bases, then brackets, while the oracle still fails."""
-    if c["op"] == "seq":
+    if c["op"] in ("seq", "wide", "oo"):
         return None
     cur = dict(c)
     changed = True
